@@ -79,7 +79,11 @@ def attr_value(form, cr):
         def fixuq(l):
             s = _fix_dollar("".join(l))
             return s + "x" if s.endswith("/") else s
-        return st.one_of(st.lists(st.sampled_from(
+        quoted = st.lists(st.sampled_from(
+            list("abc019-._:;,+*#@!?()[]{}|~^%&") + ['"', "'", "/"]),
+            min_size=1, max_size=4).map(
+                lambda l: "x" + fixuq(l))      # quotes, but not up front
+        return st.one_of(quoted, st.lists(st.sampled_from(
             list("abc019-._:;,+*#@!?()[]{}|~^%&é日") + ["/", "/", "a/b"]),
             min_size=1, max_size=5).map(fixuq), st.lists(st.sampled_from(
                 list("abc019-._:;,+*#@!?()[]{}|~^%&é日") + ["/", "/", "a/b"]),
@@ -232,6 +236,10 @@ def nodes(draw, depth, cr=True, prefixes=(), allow_unclosed=True, soup=False):
     children = draw(st.lists(
         nodes(depth - 1, cr, prefixes, allow_unclosed, soup), max_size=3))
     endspace = draw(st.sampled_from(["", "", "", " ", "\n", " \n "]))
+    if soup and draw(st.integers(0, 15)) == 0:
+        # tag soup: something behind the name of the end tag (the tag ends
+        # after the white space, the rest is text)
+        endspace = draw(st.sampled_from([" foo", "\nx y", " /", "  b=c"]))
     return ["e", name, a, [sp, ">"], children, endspace]
 
 
